@@ -155,7 +155,7 @@ def run(eng, p):
             hist.append(op)
             if op == "lane":
                 src, msg = lane.pop(0)
-                if comp.is_paused or not comp._running:
+                if comp.is_paused or not comp.is_running:
                     held_again[0] = True        # a re-injected message is handed over while paused / not started: held again
                 comp.on_message(src, msg, float(step))
                 continue
